@@ -4,9 +4,24 @@ package harness
 
 import (
 	"os"
+	"syscall"
 	"path/filepath"
 	"strings"
 )
+
+// ensureRaceLog re-executes the race build with a report file when it was
+// started without one (reports on stderr cannot be attributed to runs).
+func ensureRaceLog() {
+	if strings.Contains(os.Getenv("GORACE"), "log_path=") {
+		return
+	}
+	self, err := os.Executable()
+	if err != nil {
+		return
+	}
+	env := append(os.Environ(), "GORACE=halt_on_error=0 exitcode=0 log_path="+raceLogPrefix())
+	syscall.Exec(self, os.Args, env)
+}
 
 // With GORACE=log_path=<prefix> the runtime appends reports to <prefix>.<pid>.
 var raceOffset int64
